@@ -346,6 +346,7 @@ fn expr_json(e: &syn::Expr) -> Value {
             other => json!({"k":"lit","text":toks(other)}),
         },
         Path(p) => json!({"k":"path","path":toks(&p.path).replace(' ', ""),
+            "qself":p.qself.as_ref().map(|q| toks(&*q.ty)),
             "segs":p.path.segments.iter().map(|s| s.ident.to_string()).collect::<Vec<_>>()}),
         Call(c) => json!({"k":"call","f":expr_json(&c.func),"args":c.args.iter().map(expr_json).collect::<Vec<_>>()}),
         MethodCall(m) => json!({"k":"mcall","recv":expr_json(&m.receiver),"m":m.method.to_string(),
